@@ -46,6 +46,15 @@ def parsePart : List String → Option Part
 
 def step (st : C01.St) (ws : List String) : C01.St × String :=
   match ws with
+  | ["recvra", k, t, sup, skip, d] =>
+    -- the source is a reader with ReadAt and Size (bytes.Reader …) that the caller has already advanced past
+    -- `skip`: what Receive is offered is the REST of the stream, `d`, in one piece
+    (match st, hexArg k, matcher t, boolOf sup, hexArg skip, hexArg d with
+     | some ⟨c, s⟩, some k, some m, some sup, some _, some d =>
+       let I := interp C01.route C01.isSchema c
+       let e := receiveInto I Gen.maxBlobSize sup m s k ⟨[d], .eof⟩
+       (some ⟨c, e.state⟩, s!"{showRes e.res} hub={e.hub.length}")
+     | _, _, _, _, _, _ => (st, "bad-op"))
   | "recv" :: k :: t :: sup :: fin :: frags =>
     (match st, hexArg k, matcher t, boolOf sup, finOf fin, frags.mapM hexArg with
      | some ⟨c, s⟩, some k, some m, some sup, some fin, some fs =>
